@@ -162,7 +162,7 @@ CHECKS = {
         "design_ref": "DESIGN.md §5 C12",
     },
     "C13": {
-        "level": "model_checking", "shards": 9, "deadline_quick": 150, "deadline_thorough": 1800,
+        "level": "model_checking", "shards": 10, "deadline_quick": 150, "deadline_thorough": 1800,
         "engine": "E-WORLD",
         "technique": "explicit-state model checking of the implementation: BFS by replay over the life of one remote peer, with a retention suffix and an implementation-agnostic reflection scan of the whole object graph at every explored state",
         "rule": WORLD_RULE + "; at every state the leaf event 'retire' (close everything of the peer, advance 12.5 virtual minutes with heartbeats, scan) is applied",
